@@ -1,6 +1,7 @@
 package main
 
 import (
+	"errors"
 	"fmt"
 	"sort"
 	"strconv"
@@ -23,11 +24,11 @@ type rv struct {
 	m    map[string]rv
 }
 
-func rInt(i int) rv       { return rv{kind: "int", i: i} }
-func rStr(s string) rv    { return rv{kind: "str", s: s} }
-func rBool(b bool) rv     { return rv{kind: "bool", b: b} }
-func rList(xs ...rv) rv   { return rv{kind: "list", l: xs} }
-func rNil() rv            { return rv{kind: "nil"} }
+func rInt(i int) rv     { return rv{kind: "int", i: i} }
+func rStr(s string) rv  { return rv{kind: "str", s: s} }
+func rBool(b bool) rv   { return rv{kind: "bool", b: b} }
+func rList(xs ...rv) rv { return rv{kind: "list", l: xs} }
+func rNil() rv          { return rv{kind: "nil"} }
 
 func (v rv) truthy() bool {
 	switch v.kind {
@@ -193,8 +194,8 @@ type cycleState struct {
 }
 
 type cinterp struct {
-	cyc map[int]int            // per-node round-robin position
-	chg map[int]*changedState  // per-node ifchanged memory
+	cyc map[int]int           // per-node round-robin position
+	chg map[int]*changedState // per-node ifchanged memory
 	out strings.Builder
 }
 
@@ -446,11 +447,11 @@ func (in *cinterp) runFor(n *cnode, e *cenv) {
 // ---- generator + printer -----------------------------------------------------------
 
 type c09Gen struct {
-	r         *Rng
-	nextID    int
-	loopVars  []string
-	loopDepth int
-	named     []string // named cycles usable at the current body level
+	r                    *Rng
+	nextID               int
+	loopVars             []string
+	loopDepth            int
+	named                []string // named cycles usable at the current body level
 	inIfchanged, inEmpty bool
 }
 
@@ -851,7 +852,30 @@ func c09Run(c *C) {
 	}
 	in.run(tree, root)
 	want := in.out.String()
-	out, cerr, xerr := renderString(src, c09Ctx())
+	var out string
+	var cerr, xerr error
+	if c.R.Chance(25) {
+		// "within one fresh render": an execution of the same compiled template that failed at its very end (after all
+		// loops, cycles and ifchanged tags ran) went before; the render that follows starts from scratch all the same
+		src += "{{ mf() }}"
+		set, _ := newSet(emptySetFiles)
+		var tpl *pongo2.Template
+		tpl, cerr = set.FromString(src)
+		if cerr == nil {
+			ctx := c09Ctx()
+			ctx["mf"] = func() (string, error) { return "", errors.New("c09: deliberate failure at the end") }
+			if _, ferr := tpl.Execute(ctx); ferr == nil {
+				c.Fail("reference-mismatch", D{"source": q(src), "why": "the failing function's error was lost"})
+				return
+			}
+			ctx["mf"] = func() (string, error) { return "", nil }
+			out, xerr = tpl.Execute(ctx)
+			c.Eval(1)
+			c.Cover("render_after_failed_render")
+		}
+	} else {
+		out, cerr, xerr = renderString(src, c09Ctx())
+	}
 	c.Eval(1)
 	if cerr != nil || xerr != nil || out != want {
 		c.Fail("reference-mismatch", D{"source": q(src), "output": q(out), "expected": q(want), "compile_err": errStr(cerr), "exec_err": errStr(xerr)})
